@@ -416,8 +416,9 @@ def C01_full : Prop :=
 /-! ### the deferred queue composes the page in order, at any nesting depth -/
 
 /-- **The page is the in-order composition of the instances' outputs, at any nesting depth** (the clause of C01 about
-composition, for the model of the code, on trees of components without fills): `{% component %}` tags with empty bodies
-nested through templates to any depth, in loops, recursively, their templates holding unfilled `{% slot %}` tags too.  `ComponentNode.render` returns a placeholder for every
+composition, for the model of the code, on trees of components): `{% component %}` tags whose bodies are empty or hold
+`{% fill "name" %}` tags, nested through templates and through fill content to any depth, in loops, recursively, their
+templates holding `{% slot %}` tags (not flagged `default`).  `ComponentNode.render` returns a placeholder for every
 nested instance and queues a renderer; the `while` loop of `component_post_render` — a deque of (text-before, child,
 parent, grand-parent) items and a dict of partial outputs — puts each instance's tokens exactly where its tag stood:
 the result is `Exp [placeholder of the root]`, the recursive substitution of every placeholder by its instance's own
@@ -425,13 +426,14 @@ output (`Djc.Proofs.Stitch.Exp`; `html` there *is* the output of rendering that 
 renderer's context).  Proved for every fuel, library of the fragment, context and world by strong induction over the
 loop with a lemma for "the rest of one instance's content" (`Djc.Proofs.Stitch.seg`). -/
 theorem C01_full_partial_component_trees_compose_in_order (env : Env) (hlib : Djc.Proofs.Tree.GoodLib env) (fuel : Nat)
-    (name : Str) (kwargs : List (Str × Expr)) (only dyn : Bool) (ctx : Ctx) (w w' : World) (toks : List Tok)
-    (hd : isDynName name = false) (hc : Djc.Proofs.Plain.ctxFree ctx = true) (hw : Djc.Proofs.Tree.WInv w)
+    (name : Str) (kwargs : List (Str × Expr)) (only dyn : Bool) (body : List Node) (ctx : Ctx) (w w' : World) (toks : List Tok)
+    (hd : isDynName name = false) (hb : Djc.Proofs.Tree.fbody body = true) (hc : Djc.Proofs.Plain.ctxFree ctx = true)
+    (hw : Djc.Proofs.Tree.WInv w)
     (hext : isExtracting ctx = false)
     (hpar : Djc.Proofs.Tree.parentOf (if only || env.isolated then isolatedCopy ctx else ctx) = none)
-    (h : (renderCompTag env fuel name kwargs only dyn [] ctx).run.run w = (.ok toks, w')) :
+    (h : (renderCompTag env fuel name kwargs only dyn body ctx).run.run w = (.ok toks, w')) :
     Djc.Proofs.Stitch.Exp env [Tok.hole w.nextId []] toks :=
-  Djc.Proofs.Stitch.tree_root_output env hlib fuel name kwargs only dyn ctx w w' toks hd hc hw hext hpar h
+  Djc.Proofs.Stitch.tree_root_output env hlib fuel name kwargs only dyn body ctx w w' toks hd hb hc hw hext hpar h
 
 /-- instance (kernel-evaluated): the three-level library of `Djc/Proofs/Tree.lean` meets the hypotheses and its page is
 the expected in-order token list -/
@@ -439,23 +441,59 @@ example : Djc.Proofs.Tree.GoodLib (Djc.Proofs.Tree.exEnv false) ∧ Djc.Proofs.T
     Djc.Proofs.Stitch.exOutputOk = true :=
   ⟨Djc.Proofs.Tree.exEnv_good false, Djc.Proofs.Tree.empty_world_inv, by decide +kernel⟩
 
-/-- **A slot no fill was given for renders its own default content — in every instance of a tree, at any depth.**  In any
-world a render of the tree fragment can reach (`WInv`: every `ComponentContext` entry was made by a tag with an empty
-body), `SlotNode.render` of a slot not flagged `default` either raises without touching the world (no enclosing
-component, its entry gone, an unhashable name, `required`, the data-nesting budget), prints nothing (while a component
-body is read for fills), or *is* the render of the slot's own default content `body` in a context in which every name a
-template can use — every name except `component_vars` — resolves exactly as at the slot tag.  (`component_vars` is the
-exception the listed finding `django-slot-owner-override` is about.) -/
-theorem unfilled_slot_renders_its_default_content_in_trees (env : Env) (fuel : Nat) (nameE : Expr) (isRequired : Bool)
+/-- **Each rendered slot outputs exactly the fill addressed to it — the fill of that name given to the instance whose
+template contains the slot tag — and otherwise its own default content; in every instance of a tree, at any depth.**
+In any world a render of the tree fragment can reach (`WInv`: every `ComponentContext` entry was made by a tag whose
+body is empty or holds `{% fill "name" %}` tags with content of the fragment), `SlotNode.render` of a slot not flagged
+`default`
+
+* raises without touching the world (no enclosing component, its entry gone, an unhashable name, `required` and no
+  fill, the data-nesting budget), or
+* prints nothing (while a component body is read for fills), or
+* consults the entry `cc` of the instance `cid` its context names (`_DJC_COMPONENT_CTX` — the instance whose template is
+  being rendered) and **is** the render, in a context without slot references,
+  - of its own default content `body` when `cc.fills` has no fill under the slot's name — and then every name a template
+    can use except `component_vars` resolves exactly as at the slot tag;
+  - of the nodes of `f`, the fill `cc.fills` holds under that name, otherwise. -/
+theorem slot_renders_its_fill_else_its_default_in_trees (env : Env) (fuel : Nat) (nameE : Expr) (isRequired : Bool)
     (data : List (Str × Expr)) (body : List Node) (ctx : Ctx) (w : World)
     (hc : Djc.Proofs.Plain.ctxFree ctx = true) (hw : Djc.Proofs.Tree.WInv w) :
     (∃ e, (renderSlot env (fuel + 1) nameE false isRequired data body ctx).run.run w = (.error e, w)) ∨
     (renderSlot env (fuel + 1) nameE false isRequired data body ctx).run.run w = (.ok [], w) ∨
+    (∃ cid cc c3, ctxGet ctx compKey = some (.compRef cid) ∧ alGet cid w.ctxCache = some cc ∧
+      Djc.Proofs.Plain.ctxFree c3 = true ∧
+      ((sGet (slotNameOf (evalExpr ctx nameE)) cc.fills = none ∧
+          (∀ k, Djc.Proofs.Calm.internal k = false → k ≠ compVarsKey → ctxGet c3 k = ctxGet ctx k) ∧
+          (renderSlot env (fuel + 1) nameE false isRequired data body ctx).run.run w = (renderNodes env fuel body c3).run.run w) ∨
+       (∃ f, sGet (slotNameOf (evalExpr ctx nameE)) cc.fills = some f ∧
+          (renderSlot env (fuel + 1) nameE false isRequired data body ctx).run.run w = (renderNodes env fuel f.nodes c3).run.run w))) :=
+  Djc.Proofs.Tree.slot_unfolds env fuel nameE isRequired data body ctx w hc hw
+
+/-- **A slot no fill was given for renders its own default content** (corollary): when the instance the context names
+holds no fill under the slot's name — whatever other fills it holds. -/
+theorem unfilled_slot_renders_its_default_content_in_trees (env : Env) (fuel : Nat) (nameE : Expr) (isRequired : Bool)
+    (data : List (Str × Expr)) (body : List Node) (ctx : Ctx) (w : World)
+    (hc : Djc.Proofs.Plain.ctxFree ctx = true) (hw : Djc.Proofs.Tree.WInv w)
+    (hnf : ∀ cid cc, ctxGet ctx compKey = some (.compRef cid) → alGet cid w.ctxCache = some cc →
+      sGet (slotNameOf (evalExpr ctx nameE)) cc.fills = none) :
+    (∃ e, (renderSlot env (fuel + 1) nameE false isRequired data body ctx).run.run w = (.error e, w)) ∨
+    (renderSlot env (fuel + 1) nameE false isRequired data body ctx).run.run w = (.ok [], w) ∨
     (∃ c3, (∀ k, Djc.Proofs.Calm.internal k = false → k ≠ compVarsKey → ctxGet c3 k = ctxGet ctx k) ∧
       (renderSlot env (fuel + 1) nameE false isRequired data body ctx).run.run w = (renderNodes env fuel body c3).run.run w) := by
-  rcases Djc.Proofs.Tree.slot_unfolds env fuel nameE isRequired data body ctx w hc hw with h | h | ⟨c3, _, h2, h3⟩
+  rcases Djc.Proofs.Tree.slot_unfolds env fuel nameE isRequired data body ctx w hc hw with h | h | ⟨cid, cc, c3, h1, h2, _, hcase⟩
   · exact Or.inl h
   · exact Or.inr (Or.inl h)
-  · exact Or.inr (Or.inr ⟨c3, h2, h3⟩)
+  · rcases hcase with ⟨_, hs, hr⟩ | ⟨f, hf, _⟩
+    · exact Or.inr (Or.inr ⟨c3, hs, hr⟩)
+    · rw [hnf cid cc h1 h2] at hf; cases hf
+
+/-- **A `{% component %}` body made of `{% fill "name" %}` tags gives the instance exactly these fills** (`resolve_fills`
+on the fragment): the fills are those of the body — content of the fragment, the variables between tag and fill
+captured without slot references — and reading the body leaves the world as it was but for the step counter. -/
+theorem fills_of_a_tag_body_in_trees (env : Env) (fuel : Nat) (body : List Node) (ctx : Ctx) (w w' : World)
+    (fills : List (Str × FillFn)) (hb : Djc.Proofs.Tree.fbody body = true) (hc : Djc.Proofs.Plain.ctxFree ctx = true)
+    (h : (resolveFills env (fuel + 1) body ctx).run.run w = (.ok fills, w')) :
+    Djc.Proofs.Tree.GoodFills fills ∧ ∃ st, w' = { w with steps := st } :=
+  Djc.Proofs.Tree.resolveFills_ok env fuel body ctx w w' fills hb hc h
 
 end Djc.Props.C01
